@@ -1086,9 +1086,18 @@ class Engine(object):
     cols = [(col_obj, values) for (col_obj, values) in cols
             if any(values[i] != col_obj.raw_get(row_id) for (i, row_id) in enumerate(row_ids))]
 
+    # A row listed more than once takes its values in order, so a later value for it is a change
+    # relative to the earlier one rather than to what's in its Column: such rows are all kept.
+    repeated = set()
+    if len(set(row_ids)) < len(row_ids):
+      seen = set()
+      for row_id in row_ids:
+        (repeated if row_id in seen else seen).add(row_id)
+
     # Now find the indices of rows for which any value actually changed from what's in its Column.
     row_subset = [i for i, row_id in enumerate(row_ids)
-                  if any(values[i] != col_obj.raw_get(row_id) for (col_obj, values) in cols)]
+                  if row_id in repeated or
+                  any(values[i] != col_obj.raw_get(row_id) for (col_obj, values) in cols)]
 
     # Create and return a new action with just the selected subset of rows.
     return actions.BulkUpdateRecord(
